@@ -17,9 +17,8 @@ TECHNIQUE = "who-may-construct / dominance rules over the gate-emission call gra
 LEVEL_TEXT = (
     "Decides the structural half of 'no AND gate has a constant operand or the same wire twice, no duplicate AND pairs, every gate "
     "reaches an output, data movement costs no AND': gates enter the builder through one door (push_gate) and every call of it for "
-    "an AND is dominated by optimize_and answering None for exactly those operands - the only exception is the AND-distribution "
-    "rewrite of push_xor, accepted only while its AND combines an operand of an existing AND gate with a gate freshly created by a "
-    "raw push_gate on the same path (anything that can fold, such as a push_xor result, is a violation); optimize_and / "
+    "an AND (and for an XOR) is dominated by optimize_and / optimize_xor answering None for exactly those operands, without exception "
+    "(the AND-distribution rewrite of push_xor included); optimize_and / "
     "optimize_xor test the constants 0 / 1 and operand equality first and get_cached looks both operand orders up; build always "
     "sweeps (remove_unused_gates is on every path before the Circuit is assembled, with all panic-record fields as roots: C02-P5); "
     "and the lowering arms for literals, identifiers, tuples, structs, enums, ranges, casts, blocks, calls, let bindings and "
@@ -128,10 +127,11 @@ def rule_u1(ctx):
                         if any(r == SELF1 and p and p[0] == "gates" for (r, p) in deep) and not any(r[0] == "call" and (mir.callee(body.term(r[1])) or "").endswith(("push_xor", "push_and", "push_not", "push_or")) for (r, p) in deep):
                             k = "existing-operand"
                 kinds.append(k)
-            ok = (variant == "And" and sorted(kinds) == ["existing-operand", "fresh"]) or (variant == "Xor" and kinds == ["existing-operand", "existing-operand"])
-            if ok:
-                res.ok({"function": fid, "site": site, "verdict": "rewrite site: operands are %s" % kinds})
-                res.idioms.append("AND-distribution rewrite of push_xor: AND of an operand of an existing AND gate with a gate freshly created by raw push_gate; inner XOR of two operands of existing AND gates")
+            # (until 2026-09-26 the AND-distribution rewrite of push_xor was accepted here as a 'rewrite site with fresh operands': wrong -
+            #  operands of existing gates can be each other's negation or equal, and with the cache off the raw XOR duplicates an
+            #  existing gate, so the raw AND gets a constant-valued / repeated operand.  No exception any more.)
+            if False:
+                pass
             else:
                 res.bad(Finding("U1", fid, site + " bypasses the optimiser",
                                 "a %s gate is emitted raw although its operands (%s) may be constant, equal or already combined: optimize_%s is not consulted for them" % (variant, kinds, variant.lower()), t["sp"]))
